@@ -8,6 +8,8 @@ mod e_convert;
 mod e_hasher;
 mod e_incoming;
 mod e_prefix;
+mod e_server;
+mod node;
 mod gen;
 mod json;
 mod rng;
@@ -32,6 +34,7 @@ fn main() {
         "builder" => e_builder::run(seed, n, tier),
         "hasher" => e_hasher::run(seed, n, tier),
         "codec" => e_codec::run(seed, n, tier),
+        "server" => e_server::run(seed, n, tier),
         "decodeserver" => e_codec::decode_server(),
         "incoming" => e_incoming::run(seed, n, tier),
         _ => {
